@@ -27,6 +27,8 @@ LATTICES = [
     ([3.0, 4.0, 5.0, 90, 100, 90], "P"), ([5.0, 5.0, 5.0, 60, 60, 60], "P"), ([4.1, 5.2, 6.3, 80, 95, 105], "P"),
     ([3.0, 4.0, 5.0, 70, 80, 110], "P"), ([4.0, 4.0, 4.0002, 90, 90, 90], "P"), ([5.0, 5.0, 13.0, 90, 90, 120], "R"),
     ([3.0, 4.0, 5.0, 90, 90, 90], "C"),
+    # large (protein-size) cells: g-vectors of 1e-2 .. 1e-3 per Angstrom, cross products down to 1e-5
+    ([150.0, 150.0, 150.0, 90, 90, 90], "P"), ([130.0, 140.0, 400.0, 90, 90, 90], "P"),
 ]
 
 
@@ -57,14 +59,15 @@ def setup(li, nr):
     cell, sym = LATTICES[li]
     # pick a limit that yields at least nr rings
     B = O.cell_to_B(cell)
-    dsmax = 0.3
+    scale = 1.0 if min(cell[:3]) < 20 else 4.0 / min(cell[:3])
+    dsmax = 0.3 * scale
     while True:
         want, _ = O.brute_hkls(cell, sym, dsmax)
-        ds_sorted = sorted(set(round(d, 5) for d in want.values()))
+        ds_sorted = sorted(set(round(d / scale, 5) for d in want.values()))
         if len(ds_sorted) >= nr + 1:
             break
-        dsmax += 0.05
-    tol = 1e-4
+        dsmax += 0.05 * scale
+    tol = 1e-4 * scale
     uc = ucm.unitcell(cell, sym)
     uc.makerings(dsmax, tol)
     rings = []
@@ -106,6 +109,7 @@ def run_shard(desc):
     gi = np.linalg.inv(O.cell_metric(cell))
     if r1 >= len(rings):
         return sh
+    kept = kept_copy = None
     for r2 in range(r1, len(rings)):
         H1, H2 = rings[r1], rings[r2]
         # multiplicity of each cosine class (to count non-trivial cases)
@@ -156,6 +160,8 @@ def run_shard(desc):
                     if mult >= 4 or len(cands) >= 2:
                         sh.nontrivial += 1
                     sh.outcomes.add((len(cands) if len(cands) < 6 else 6, crange))
+                    if crange > 1e-3:
+                        kept, kept_copy = cands, [u.copy() for u in cands]
                 # the same two reflections presented in the other ring order, on the same unitcell object (its pair cache
                 # must keep the two orders apart)
                 if r1 != r2:
@@ -188,6 +194,10 @@ def run_shard(desc):
                 sh.evaluations += 1
                 if mult >= 4:
                     sh.nontrivial += 1
+                # history: a candidate list the caller kept from an earlier call is not rewritten by later calls on the same object
+                if kept is not None and any(not np.array_equal(a, b) for a, b in zip(kept, kept_copy)):
+                    sh.violation("orient:candidate-list-from-an-earlier-call-was-overwritten-by-later-calls", dict(case, crange=0.004), {"n": len(kept)})
+                    kept = None
         sh.sample({"lattice": LATTICES[li], "ring_pair": [r1, r2], "pairs": len(H1) * len(H2)}, limit=1)
     # history: the ring table of the SAME unitcell object is rebuilt with another limit and ring tolerance (the pair cache must be
     # invalidated), then some pairs are oriented again
